@@ -31,6 +31,7 @@ type NetPlan struct {
 	HeavyTail float64 `json:"heavy,omitempty"`     // prob. that a packet gets up to 20x max delay
 	StreamCut float64 `json:"stream_cut,omitempty"` // prob. a stream is cut at a random byte
 	StreamStall float64 `json:"stream_stall,omitempty"`
+	StreamBlock float64 `json:"stream_block,omitempty"` // the peer stops reading: a write blocks until its deadline
 	StreamFrag bool   `json:"stream_frag,omitempty"` // fragment reads
 	StreamDelay int64 `json:"stream_delay,omitempty"` // max per-write latency ns
 	DialRefuse float64 `json:"dial_refuse,omitempty"`
@@ -140,6 +141,7 @@ type endpoint struct {
 	closed   bool // Shutdown() called by the library
 	closedCh chan struct{}
 	down     bool // black-holed by the harness (crash)
+	failTo   map[string]bool // destinations for which WriteToAddress returns an error
 	detached bool // replaced by a restarted instance
 	sendSeq  uint64
 	dialSeq  uint64
@@ -269,6 +271,12 @@ func (ep *endpoint) WriteToAddress(b []byte, a Address) (time.Time, error) {
 	}
 	buf := append([]byte(nil), b...)
 	ep.mu.Lock()
+	if ep.failTo[a.Addr] {
+		// the local stack refuses the send (network unreachable, EPERM, ...): an error, not a silent loss
+		ep.mu.Unlock()
+		n.fault("udp_send_error")
+		return time.Time{}, &net.OpError{Op: "write", Net: "udp", Err: errors.New("sim: network is unreachable")}
+	}
 	seq := ep.sendSeq
 	ep.sendSeq++
 	closed := ep.closed
@@ -457,6 +465,8 @@ type pipeHalf struct {
 	cutAt    int64 // -1: none
 	cutReset bool
 	stall    bool
+	wblock     bool  // writes block once blockAfter bytes have been written (peer stopped reading)
+	blockAfter int64
 	fragSeed uint64
 	frag     bool
 	reads    uint64
@@ -511,6 +521,15 @@ func (n *SimNet) newConnPair(cl, sv *endpoint, r *rng, faultsActive bool) (*simC
 			s2c.stall = true
 		}
 		n.fault("stream_stall_armed")
+	}
+	if faultsActive && n.plan.StreamBlock > 0 && r.chance(n.plan.StreamBlock) {
+		h := c2s
+		if r.chance(0.5) {
+			h = s2c
+		}
+		h.wblock = true
+		h.blockAfter = r.i64n(300)
+		n.fault("stream_block_armed")
 	}
 	n.mu.Lock()
 	n.connSeq++
@@ -629,6 +648,25 @@ func (c *simConn) Write(p []byte) (int, error) {
 	if h.rclosed {
 		h.mu.Unlock()
 		return 0, &net.OpError{Op: "write", Net: "tcp", Err: errors.New("sim: broken pipe")}
+	}
+	if h.wblock && !dl.IsZero() && h.written+int64(len(p)) > h.blockAfter {
+		// (a write without a deadline - SendReliable sets none - is let through: it would wait for
+		// the peer for ever, which is the caller's contract with the network, not a lifecycle defect)
+		// send buffer full, the peer does not read: block until the deadline or until closed
+		h.mu.Unlock()
+		n.fault("stream_write_blocked")
+		var tc <-chan time.Time
+		if !dl.IsZero() {
+			t := time.NewTimer(time.Until(dl))
+			defer t.Stop()
+			tc = t.C
+		}
+		select {
+		case <-tc:
+			return 0, &net.OpError{Op: "write", Net: "tcp", Err: &timeoutErr{"write"}}
+		case <-c.closedCh:
+			return 0, io.ErrClosedPipe
+		}
 	}
 	data := append([]byte(nil), p...)
 	if h.cutAt >= 0 && h.written+int64(len(data)) > h.cutAt {
